@@ -86,7 +86,7 @@ func runC11(c *core.Ctx, o Options) {
 	// ---- the decoder set
 	cg := c.CallGraph()
 	var entries []*ssa.Function
-	for _, e := range []struct{ rel, name string }{{"fix/encoding", "Unmarshal"}, {"fix/encoding", "DefaultUnmarshaller.Unmarshal"}, {"fix", "ValueByTag"}, {"", "DefaultHandler.serve"}, {"session", "Session.RejectMessage"}} {
+	for _, e := range []struct{ rel, name string }{{"fix/encoding", "Unmarshal"}, {"fix/encoding", "DefaultUnmarshaller.Unmarshal"}, {"fix", "ValueByTag"}, {"", "DefaultHandler.serve"}, {"session", "Session.RejectMessage"}, {"", "Conn.runReader"}} {
 		fn := c.Func(e.rel, e.name)
 		if c.Anchor("decoder entry "+e.name, fn != nil, e.name, posOf(fn)) {
 			entries = append(entries, fn)
@@ -412,8 +412,12 @@ func runC11(c *core.Ctx, o Options) {
 				}
 			}
 		})
-		// termination
+		// termination (the connection reader's loop is meant to run for as long as the connection lives: it reads until the
+		// socket fails — that it ends with the connection is C13's rule Z2)
 		for _, lp := range loops(fn) {
+			if an.NameOf(fn) == "runReader" {
+				continue
+			}
 			ob := c.Ob("term", an.NameOf(fn), "loop at "+lp[len(lp)-1].Comment+" terminates", lp[len(lp)-1].Instrs[0].Pos())
 			if why := loopTerminates(fn, lp, inv); why != "" {
 				ob.Ok("%s", why)
@@ -449,6 +453,10 @@ func runC11(c *core.Ctx, o Options) {
 	c.Extra["discharged_by_compiler"] = nGC
 	c.Extra["discharged_by_linear_engine"] = nLin
 	c.Extra["tabled_exceptions"] = nExc
+	// precond (premise): a retransmission never hands a nil message to the send path — the store's range lookup fails on a
+	// missing entry instead of returning a list with holes
+	checkStorageMessages(c, "precond")
+	c.Explanation += " The connection reader (Conn.runReader) is part of the panic census (bounds, assertions; its read loop is exempt from the termination rule — C13.Z2). precond premise: the store's range lookup fails on a missing entry, so no nil message reaches the send path."
 	c.RuleMin = map[string]int{"assert": 4, "bounds": 24, "precond": 2, "term": 8}
 	c.MinObl = 40
 }
